@@ -177,9 +177,9 @@ from vf.registry import specialise  # noqa: E402
 
 def c01_tree(shape: int, n1: int, n2: int, a0: int, a1: int, b0: int, b1: int) -> bool:
     """
-    pre: (a0 == 9 or a0 == 10 or 32 <= a0 <= 55295 or 57344 <= a0 <= 65533) and (a1 == 9 or a1 == 10 or 32 <= a1 <= 55295 or 57344 <= a1 <= 65533)
-    pre: (b0 == 9 or b0 == 10 or 32 <= b0 <= 55295 or 57344 <= b0 <= 65533) and (b1 == 9 or b1 == 10 or 32 <= b1 <= 55295 or 57344 <= b1 <= 65533)
-    post: _ == True
+    vpre: (a0 == 9 or a0 == 10 or 32 <= a0 <= 55295 or 57344 <= a0 <= 65533) and (a1 == 9 or a1 == 10 or 32 <= a1 <= 55295 or 57344 <= a1 <= 65533)
+    vpre: (b0 == 9 or b0 == 10 or 32 <= b0 <= 55295 or 57344 <= b0 <= 65533) and (b1 == 9 or b1 == 10 or 32 <= b1 <= 55295 or 57344 <= b1 <= 65533)
+    vpost: _ == True
     """
     t1 = S(*((a0, a1)[:n1]))
     t2 = S(*((b0, b1)[:n2]))
